@@ -144,10 +144,14 @@ func (g *G) genFuncSig(pure bool) *Func {
 func (g *G) sigString(f *Func) string {
 	var ps []string
 	for i, p := range f.Params {
+		name := p.Name
+		if f.blank[p] {
+			name = "_"
+		}
 		if f.Variadic && i == len(f.Params)-1 {
-			ps = append(ps, p.Name+" ..."+p.T.Elem.str(g.pkg))
+			ps = append(ps, name+" ..."+p.T.Elem.str(g.pkg))
 		} else {
-			ps = append(ps, p.Name+" "+p.T.str(g.pkg))
+			ps = append(ps, name+" "+p.T.str(g.pkg))
 		}
 	}
 	var rs []string
@@ -231,7 +235,20 @@ func (g *G) emitFunc(f *Func, stmts int) {
 		recv = "(r *" + f.Recv.Name + ") "
 		g.declare(&Var{Name: "r", T: PtrTo(f.Recv), RO: true})
 	}
+	// now and then two or more parameters are blank (never the one a recursive function counts down, nor a variadic tail)
+	blank := map[*Var]bool{}
+	if len(f.Params) >= 3 && g.r.Chance(1, 5) {
+		for i, p := range f.Params {
+			if i >= 1 && !(f.Variadic && i == len(f.Params)-1) {
+				blank[p] = true
+			}
+		}
+	}
+	f.blank = blank
 	for _, p := range f.Params {
+		if blank[p] {
+			continue
+		}
 		if p.T.K == KSlice {
 			p.Shared = true
 		}
@@ -244,7 +261,9 @@ func (g *G) emitFunc(f *Func, stmts int) {
 	g.ind++
 	// params must be "used"
 	for _, p := range f.Params {
-		g.line("_ = %s", p.Name)
+		if !blank[p] {
+			g.line("_ = %s", p.Name)
+		}
 	}
 	if f.NilSafe {
 		g.line("if r == nil {")
@@ -272,7 +291,7 @@ func (g *G) emitFunc(f *Func, stmts int) {
 		g.use("fmt")
 		var as []string
 		for _, p := range f.Params {
-			if p.T.Printable() {
+			if p.T.Printable() && !blank[p] {
 				as = append(as, p.Name)
 			}
 		}
